@@ -29,6 +29,34 @@ instance : Monad Res where
 def toOption {α} : Res α → Option α | .ok a => some a | _ => none
 end Res
 
+@[simp] theorem Res.ok_bind {α β} (a : α) (f : α → Res β) : (Res.ok a >>= f) = f a := rfl
+@[simp] theorem Res.err_bind {α β} (e : String) (f : α → Res β) : ((Res.err e : Res α) >>= f) = .err e := rfl
+@[simp] theorem Res.panic_bind {α β} (w : String) (f : α → Res β) : ((Res.panic w : Res α) >>= f) = .panic w := rfl
+@[simp] theorem Res.pure_eq {α} (a : α) : (pure a : Res α) = .ok a := rfl
+
+/-! ### Checked slice operations: `panic` exactly where Go panics -/
+
+/-- `d[i]` -/
+def Bytes.idx (d : Bytes) (i : Nat) : Res UInt8 :=
+  match d[i]? with
+  | some b => .ok b
+  | none => .panic "index out of range"
+
+/-- `d[lo:hi]` -/
+def Bytes.slice (d : Bytes) (lo hi : Nat) : Res Bytes :=
+  if lo ≤ hi ∧ hi ≤ d.length then .ok ((d.take hi).drop lo) else .panic "slice bounds out of range"
+
+/-- `d[lo:]` -/
+def Bytes.sliceFrom (d : Bytes) (lo : Nat) : Res Bytes :=
+  if lo ≤ d.length then .ok (d.drop lo) else .panic "slice bounds out of range"
+
+theorem Bytes.slice_ok (d : Bytes) (lo hi : Nat) (h1 : lo ≤ hi) (h2 : hi ≤ d.length) :
+    Bytes.slice d lo hi = .ok ((d.take hi).drop lo) := by simp [Bytes.slice, h1, h2]
+theorem Bytes.sliceFrom_ok (d : Bytes) (lo : Nat) (h : lo ≤ d.length) :
+    Bytes.sliceFrom d lo = .ok (d.drop lo) := by simp [Bytes.sliceFrom, h]
+theorem Bytes.idx_ok (d : Bytes) (i : Nat) (h : i < d.length) : Bytes.idx d i = .ok d[i] := by
+  simp [Bytes.idx, h]
+
 /-! ### Big-endian encodings, written with the shifts the Go code uses -/
 
 def be16 (x : UInt16) : Bytes := [(x >>> (8 : UInt16)).toUInt8, x.toUInt8]
